@@ -49,6 +49,10 @@ impl From<Vec<Variable>> for Variable {
 // ----- partition (`it \\ p`) ---------------------------------------------------------------------------------------
 /// p(x) returned `true` (anything else, including another value, sends x to the second array)
 pub open spec fn accepted(p: FunV, x: Variable) -> bool { fun_call_res(p, seq![x]) == Ok::<Variable, ExecError>(Variable::Bool(true)) }
+/// every call p(xi) succeeded
+pub open spec fn all_ok(p: FunV, xs: Seq<Variable>) -> bool decreases xs.len() {
+    if xs.len() == 0 { true } else { all_ok(p, xs.drop_last()) && fun_call_res(p, seq![xs.last()]) is Ok }
+}
 /// the xi with p(xi), in order / the others, in order
 pub open spec fn part_yes(p: FunV, xs: Seq<Variable>) -> Seq<Variable> decreases xs.len() {
     if xs.len() == 0 { Seq::empty() } else {
